@@ -13,7 +13,7 @@
    its clip lies inside the buffer and inside the handed rectangle r). *)
 From Coq Require Import ZArith List Bool.
 From Tickit Require Import RectDefs WinRectSet WinDefs WinSpec WinHist
-  WinExposeProofs WinLogDisjoint WinFlushProofs WinScreenInv WinPreserve WinHistory WinC01Extra.
+  WinExposeProofs WinLogDisjoint WinFlushProofs WinScreenInv WinPreserve WinTermResize WinHistory WinC01Extra.
 Import ListNotations.
 Local Open Scope Z_scope.
 
@@ -71,7 +71,7 @@ Proof. exact flush_establishes_any_queue. Qed.
 Print Assumptions C01_flush.
 
 (* Every operation of the history alphabet other than flush, the three scrolls and the
-   terminal resize preserves the screen invariant: new (first / lowest / root-parent / hidden),
+   terminal resize (for which see C01_term_resize) preserves the screen invariant: new (first / lowest / root-parent / hidden),
    close, show, hide, queued restacks, set_geometry / reposition / resize followed by the
    exposes of old and new area (the property's proviso), expose, take_focus, cursor and
    control setters -- because the only cells whose composition changes lie in the rectangle
@@ -86,6 +86,16 @@ Theorem C01_preserved : forall cfg progs o m,
 Proof. exact step_preserves. Qed.
 Print Assumptions C01_preserved.
 
+(* the terminal resize preserves it too: the surviving cells keep content and composition,
+   the grown strips are exposed *)
+Theorem C01_term_resize : forall app st tm nl nc,
+  ScreenInv app st tm -> ids_unique (r_tree st) -> 0 < nl -> 0 < nc ->
+  r_fault (fst (win_term_resize st tm nl nc)) = false ->
+  ScreenInv app (fst (win_term_resize st tm nl nc)) (snd (win_term_resize st tm nl nc)) /\
+  ids_unique (r_tree (fst (win_term_resize st tm nl nc))).
+Proof. exact term_resize_preserves. Qed.
+Print Assumptions C01_term_resize.
+
 (* the state right after tickit_window_new_root satisfies the invariant *)
 Theorem C01_init : forall nl nc orc, 0 < nl -> 0 < nc ->
   r_fault (m_root (m_init nl nc orc)) = false -> MInv (m_init nl nc orc).
@@ -96,20 +106,21 @@ Print Assumptions C01_init.
    (interleaved with flushes at arbitrary points) on every tree, and every scroll oracle,
    after each flush every terminal cell shows the composition.
    PROVED (C01_history_partial / C01_history_flushed_partial): for every history over the
-   alphabet WITHOUT the three scroll operations and the terminal resize ([run_ok]: each
-   step is a flush or an operation meeting op_side, and no fuel fault), starting from any
+   alphabet WITHOUT the three scroll operations ([run_ok]: each step is a flush or an
+   operation meeting op_side2 -- op_side, or a terminal resize to a positive size -- and no
+   fuel fault), starting from any
    state with the invariant (e.g. C01_init), with handlers that repaint what they are asked:
    the invariant holds throughout, and after a history that ends with a flush the damage is
    empty and every screen cell shows the composition.  No bound on the length of the
    history, the number of windows or the coordinates.
-   MISSING: preservation of ScreenInv by OScroll / OScrollRect / OScrollKids / OTermResize.
+   MISSING: preservation of ScreenInv by OScroll / OScrollRect / OScrollKids.
    The scroll case needs (i) the case analysis of _scrollrectset per stored rectangle
    (accepted: the terminal content and the application content shift alike, pending damage
    is shifted, the vacated strips are exposed; refused or too large: everything exposed) and
-   (ii) that the visible region contains NO cell of a child / higher sibling, i.e. the
-   exactness of rectset subtract (WinRectSetProofs.rs_subtract_covered_partial proves only
-   that nothing outside the holes is lost), which rests on the sortedness / disjointness
-   invariant of property C05.  These operations are covered by the correspondence check
+   (ii) that the visible region contains NO cell of a child / higher sibling and that its
+   rectangles are pairwise disjoint, i.e. the exactness of rectset subtract
+   (WinRectSetProofs.rs_subtract_covered_partial proves only that nothing outside the holes
+   is lost) and the rectset invariant, which are property C05's theorems.  These operations are covered by the correspondence check
    (model = C after every flush, compose oracle) only. *)
 Theorem C01_history_partial : forall progs,
   (forall id, progs id = [DPaint]) ->
